@@ -44,9 +44,16 @@ func clearHooks() { setHooks(nil) }
 // observe wraps a function of the instrumented tree: cb sees receiver and arguments, then the
 // original body runs (the hook removes itself for the duration of the call).
 func observe(key string, cb func(recv any, args []any)) hookFn {
+	return observe2(key, cb, nil)
+}
+
+// observe2 additionally shows the results to after.
+func observe2(key string, cb func(recv any, args []any), after func(res []any)) hookFn {
 	var self hookFn
 	self = func(recv any, args []any) []any {
-		cb(recv, args)
+		if cb != nil {
+			cb(recv, args)
+		}
 		f, ok := verifhook.Funcs[key]
 		if !ok {
 			panic("observe: no function " + key)
@@ -77,6 +84,9 @@ func observe(key string, cb func(recv any, args []any)) hookFn {
 		res := make([]any, len(outs))
 		for i, o := range outs {
 			res[i] = o.Interface()
+		}
+		if after != nil {
+			after(res)
 		}
 		return res
 	}
